@@ -49,6 +49,7 @@ fn main() {
         "clones" => more::clones(&a, &mut rep),
         "meta" => more::meta(&a, &mut rep),
         "dropbomb" => more::dropbomb(&a, &mut rep),
+        "withcap" => more::withcap(&a, &mut rep),
         "noop" => more::noop(&a, &mut rep),
         #[cfg(feature = "ext")]
         "par" => ext::par(&a, &mut rep),
